@@ -406,6 +406,10 @@ func usesWithoutNilError(p *Program, call *ssa.Call, pval, errV ssa.Value, nulla
 				flag(x.X, "dereferenced", true)
 			}
 		case *ssa.Store:
+			if a, ok := x.Addr.(*ssa.Alloc); ok && isResultSpill(a) {
+				// the result variable of a function with a defer: the value is judged at the return
+				break
+			}
 			flag(x.Val, "stored", false)
 		case *ssa.MapUpdate:
 			flag(x.Value, "stored into a map", false)
@@ -432,4 +436,36 @@ func usesWithoutNilError(p *Program, call *ssa.Call, pval, errV ssa.Value, nulla
 		return false
 	})
 	return bad
+}
+
+// isResultSpill: a local slot that only carries a return operand across `rundefers` (go/ssa spills
+// the results of a function with a defer): written by stores, read only by the operands of
+// returns, captured by no closure.
+func isResultSpill(a *ssa.Alloc) bool {
+	if a.Heap {
+		return false
+	}
+	loads := 0
+	for _, r := range referrersOf(a) {
+		switch x := r.(type) {
+		case *ssa.Store:
+			if x.Addr != ssa.Value(a) {
+				return false
+			}
+		case *ssa.UnOp:
+			if x.Op != token.MUL {
+				return false
+			}
+			for _, rr := range referrersOf(x) {
+				if _, ok := rr.(*ssa.Return); !ok {
+					return false
+				}
+			}
+			loads++
+		case *ssa.DebugRef:
+		default:
+			return false
+		}
+	}
+	return loads > 0
 }
